@@ -184,16 +184,22 @@ def handle (line : String) : String :=
     | some b => boolStr (isLikelyQuic b)
     | none => "bad-op"
   | ["udp", orc, dgs] =>
-    match parseOracle orc, (dgs.splitOn ",").mapM unhx with
-    | some o, some ds =>
-      let (st, outs) := ds.foldl (fun (acc : Pkt × (List String × List String)) d =>
-        let s1 := acc.1.append d
-        let (r, s2) := s1.sniffUdp o
-        let rs := match r, extractSni (newLinear s2.cryptos) with
-          | .ok _, .ok raw => if nonAscii raw then "nonascii" else resStr r
-          | _, _ => resStr r
-        (s2, (acc.2.1 ++ [s!"{rs}/{boolStr s2.needMore}"], acc.2.2 ++ [s!"{s2.nextRead}/{s2.cryptos.length}"]))) (({} : Pkt), ([], []))
-      let intact := st.data == [[]] ++ ds
+    -- datagram tokens; `C` = CompactPacketState between two datagrams
+    match parseOracle orc, (dgs.splitOn ",").mapM (fun t => if t = "C" then some none else (unhx t).map some) with
+    | some o, some toks =>
+      let (st, kept, outs) := toks.foldl (fun (acc : Pkt × List Bytes × (List String × List String)) tok =>
+        match tok with
+        | none => (acc.1.compact, [], acc.2.2)
+        | some d =>
+          let s1 := acc.1.append d
+          let (r, s2) := s1.sniffUdp o
+          let rs := match r, extractSni (newLinear s2.cryptos) with
+            | .ok n, .ok raw => if nonAscii raw || nonAscii n then "nonascii" else resStr r
+            | .ok n, _ => if nonAscii n then "nonascii" else resStr r
+            | _, _ => resStr r
+          (s2, acc.2.1 ++ [d], (acc.2.2.1 ++ [s!"{rs}/{boolStr s2.needMore}"], acc.2.2.2 ++ [s!"{s2.nextRead}/{s2.cryptos.length}"])))
+        (({} : Pkt), [], ([], []))
+      let intact := st.data == [[]] ++ kept
       " ".intercalate outs.1 ++ s!" intact={boolStr intact} # " ++ " ".intercalate outs.2
     | _, _ => "bad-op"
   | ["pkt", orc, dgs] =>
